@@ -3,7 +3,7 @@ From Coq Require Import List Bool Arith NArith.
 Import ListNotations.
 Require Import PV.TypeVar.Base PV.TypeVar.Model PV.TypeVar.Spec PV.Call.Model.
 Require Import PV.Binder.Kind PV.Binder.Sig PV.Binder.Bind PV.Binder.PyBind.
-Require Import PV.Proofs.BinderConcrete PV.Proofs.BinderValid PV.Proofs.SolveCall.
+Require Import PV.Proofs.BinderConcrete PV.Proofs.BinderValid PV.Proofs.BinderStar PV.Proofs.BinderMain PV.Proofs.SolveCall.
 
 Section CallMain.
   Context {V : Type} (O : ops V) (limit : nat).
@@ -33,6 +33,25 @@ Section CallMain.
     assert (Hl : length (positionals (actuals_of c)) = length (a_pos c)) by (cbn; apply map_length).
     rewrite Hl in H. rewrite <- H. unfold accepts, cbind.
     destruct (bind (sig_of s) (actuals_of c)); split; intros; congruence.
+  Qed.
+
+  Lemma actuals_definite : forall (c : @ccall V), definite (actuals_of c).
+  Proof.
+    intros c. unfold definite, actuals_of; cbn. split.
+    - induction (a_pos c); cbn; auto.
+    - induction (a_kw c) as [|[n v] l IH]; cbn; auto.
+  Qed.
+
+  (* C05 composed, star arguments: a call the model does not report as a binding failure
+     has an expansion of its star arguments that CPython binds *)
+  Theorem bound_star_call_has_binding_expansion : forall (s : @csig V) c b,
+    valid_sig (sig_of s) = true -> names_nodup (map fst (a_kw c)) = true -> cbind s c = Some b ->
+    exists npos' kws', expansion (actuals_of c) npos' kws' /\ py_bind (sig_of s) npos' kws' = true.
+  Proof.
+    intros s c b Hv Hn Hb.
+    apply (bind_star_accept_sound (sig_of s) (actuals_of c) Hv (actuals_definite c)).
+    - rewrite actuals_kw_names. exact Hn.
+    - unfold accepts. unfold cbind in Hb. destruct (bind (sig_of s) (actuals_of c)); [reflexivity|discriminate].
   Qed.
 End CallMain.
 
